@@ -24,6 +24,7 @@ TECHNIQUE = "static analysis of rustc MIR facts: dominance/edge guards, call-sit
 
 G = gs.G
 BS = r"^libp2p_gossipsub::backoff::BackoffStorage::"
+CONFIGS = [{"name": "gossipsub-features", "packages": ["libp2p-gossipsub"], "features": "metrics,partial-messages"}]
 DANGER = re.compile(r"(HashMap|hash_map::(Entry|OccupiedEntry|VacantEntry)|hash_map::HashMap)::"
                     r"(insert|insert_entry|remove|remove_entry|clear|retain|drain|extract_if|and_modify|get_mut|get_many_mut|"
                     r"get_disjoint_mut|values_mut|iter_mut|into_mut|or_insert|or_insert_with|or_insert_with_key|replace_entry|"
